@@ -21,7 +21,13 @@
 (*   commit  len(signers)+1 >= N-(N-1)/3   vbft getCommitConsensus: the    *)
 (*                             proposer is the implicit "+1", so the code  *)
 (*                             needs CommitSigners(N) distinct signers     *)
-(*                             besides the proposer                        *)
+(*                             besides the proposer.  The function also    *)
+(*                             receives the CONFIGURED consensus parameter *)
+(*                             C (GenesisChainConfig: N/3) and bumps a     *)
+(*                             local copy when more than C commits are for *)
+(*                             the empty block: neither may move the       *)
+(*                             quorum (CommitReached ignores both), and two*)
+(*                             disjoint groups never both reach it         *)
 (*   gov     num >= (2*sum+2)/3  CheckConsensusSigns / CheckVotes /        *)
 (*                             CheckSigns                                  *)
 (***************************************************************************)
@@ -36,6 +42,9 @@ vars == <<n, phase>>
 
 CommitSigners(N) == BftThr(N) - 1       \* signers besides the proposer needed by getCommitConsensus
 Max2(a, b) == IF a >= b THEN a ELSE b
+(* commit consensus for a proposer with k distinct committers/endorsers besides it, under configured parameter C and *)
+(* e commits for the empty block: C and e are deliberately unused                                                   *)
+CommitReached(N, C, e, k) == k + 1 >= BftThr(N)
 
 Arith(N) == /\ 2 * BftThr(N) - N > F(N)
             /\ 2 * GovThr(N) - N > F(N)
@@ -43,6 +52,11 @@ Arith(N) == /\ 2 * BftThr(N) - N > F(N)
             /\ 1 <= BftThr(N) /\ BftThr(N) <= N
             /\ 1 <= GovThr(N) /\ GovThr(N) <= N
             /\ CommitSigners(N) + 1 = BftThr(N)
+            /\ 2 * BftThr(N) > N                         \* two disjoint groups cannot both reach the block threshold
+            /\ \A C \in {F(N), N \div 3, 0, F(N) + 1} : \A e \in {0, C + 1, N} :
+                  /\ CommitReached(N, C, e, Max2(1, CommitSigners(N)))
+                  /\ (CommitSigners(N) > 1 => ~CommitReached(N, C, e, CommitSigners(N) - 1))
+                  /\ (N >= 2 => ~CommitReached(N, C, e, (N + 1) \div 2 - 1))   \* the larger half, minus its proposer
 
 SetLevel(N) == LET V == 1..N IN
                \A A \in SUBSET V : \A B \in SUBSET V :
